@@ -15,7 +15,8 @@ class ExecMixin:
         depth = (parent.depth + 1) if parent is not None else 0
         if depth > 60:
             raise Abort("call depth")
-        ctxname = fn["name"] if parent is None else parent.ctxname + " > " + (tag or fn["name"].split("::")[-1])
+        short = "::".join(fn["name"].replace("::<T>", "").split("::")[-2:])
+        ctxname = fn["name"] if parent is None else parent.ctxname + " > " + (tag or short)
         return Frame_(fn, body, self.counter, depth, ctxname, persistent)
 
     def loops_of(self, fn, body):
